@@ -180,7 +180,7 @@ func (e *Env) trIdent(name string) (Term, Ty) {
 	if b, ok := e.vars[name]; ok {
 		return b.T, b.Ty
 	}
-	if (name == "$i" || strings.HasPrefix(name, "$r")) && e.resolve != nil {
+	if (name == "$i" || name == "$visited" || strings.HasPrefix(name, "$r")) && e.resolve != nil {
 		if t, ty, ok := e.resolve(name, e.st); ok {
 			return t, ty
 		}
@@ -639,9 +639,14 @@ func (e *Env) trQuant(x *EQuant) (Term, Ty) {
 			break // the trigger named the slice to re-index over
 		}
 		var ps []string
+		unsafe := false
 		for _, t := range ts {
 			tt, _ := sub.tr(t)
 			ps = append(ps, tt.S)
+			unsafe = unsafe || g.sc.patternUnsafe(tt.S)
+		}
+		if unsafe {
+			continue // a merged (ite) heap in the trigger: leave pattern selection to the solver
 		}
 		pat += " :pattern (" + strings.Join(ps, " ") + ")"
 	}
